@@ -6,10 +6,16 @@
 //!                                                    exit 4 = unknown harness / bad usage
 //!   exmex_replay --search <harness> <tries> <seed>   palette-mode search for a failing input;
 //!                                                    prints `FOUND <hex>` (exit 1) or `NOT-FOUND` (exit 0)
+//!   exmex_replay --exhaust <harness> <payload radix> <max runs> [<shard> <shards>]
+//!                                                    EVERY draw sequence of the harness (depth first; choices, bools and
+//!                                                    ranges over their whole domain, typed payloads over the first
+//!                                                    <payload radix> palette values); prints `FOUND <hex>` (exit 1; replay
+//!                                                    with --palette), `EXHAUSTED runs=.. accepted=..` (exit 0) or
+//!                                                    `TRUNCATED runs=..` (exit 5) when <max runs> was reached
 //!   exmex_replay --list
 //! In palette mode every typed draw consumes one byte and yields that type's boundary value with this
 //! index (see `exmex_contracts::src::PAL_*`).
-use exmex_contracts::src::{Q, REJECT};
+use exmex_contracts::src::{Enumerator, Q, REJECT};
 use std::panic;
 
 fn unhex(s: &str) -> Option<Vec<u8>> {
@@ -75,6 +81,53 @@ fn main() {
             }
         }
         println!("NOT-FOUND after {} palette inputs ({} satisfied the harness pre-condition)", tries, accepted);
+        return;
+    }
+    if (args.len() == 5 || args.len() == 7) && args[1] == "--exhaust" {
+        let Some((_, f)) = reg.iter().find(|(n, _)| *n == args[2]) else {
+            eprintln!("unknown harness {}", args[2]);
+            std::process::exit(4);
+        };
+        let f = *f;
+        let radix: u8 = args[3].parse().unwrap_or(1);
+        let max: u64 = args[4].parse().unwrap_or(1_000_000);
+        let (shard, shards): (u8, u8) = if args.len() == 7 { (args[5].parse().unwrap_or(0), args[6].parse().unwrap_or(1)) } else { (0, 1) };
+        let mut en = Enumerator { payload_radix: radix, ..Default::default() };
+        // sharding: a run belongs to the shard selected by its first PREFIX digits; once these are known, the whole
+        // subtree of a foreign prefix is skipped without being run
+        const PREFIX: usize = 6;
+        let (mut runs, mut accepted) = (0u64, 0u64);
+        loop {
+            let h = en.digits.iter().take(PREFIX).fold(0xcbf29ce484222325u64, |a, d| (a ^ (*d as u64 + 1)).wrapping_mul(0x100000001b3));
+            let key = ((h ^ (h >> 29)).wrapping_mul(0x9E3779B97F4A7C15) >> 40) % shards as u64;
+            let mine = key == shard as u64;
+            if !mine && en.digits.len() >= PREFIX {
+                en.pos = PREFIX;
+                if !en.advance() { break; }
+                continue;
+            }
+            let mut q = Q::new_enumerating(std::mem::take(&mut en));
+            let res = panic::catch_unwind(panic::AssertUnwindSafe(|| f(&mut q)));
+            en = q.en.take().unwrap();
+            if mine { runs += 1; }
+            match res {
+                Ok(()) => { if mine { accepted += 1; } }
+                Err(e) => {
+                    let msg = if let Some(s) = e.downcast_ref::<&str>() { s.to_string() } else if let Some(s) = e.downcast_ref::<String>() { s.clone() } else { "<non-string panic>".to_string() };
+                    if msg != REJECT {
+                        let hex: String = en.replay.iter().map(|b| format!("{:02x}", b)).collect();
+                        println!("FOUND {} message={:?}", hex, msg);
+                        std::process::exit(1);
+                    }
+                }
+            }
+            if !en.advance() { break; }
+            if runs >= max {
+                println!("TRUNCATED runs={} accepted={}", runs, accepted);
+                std::process::exit(5);
+            }
+        }
+        println!("EXHAUSTED runs={} accepted={}", runs, accepted);
         return;
     }
     let palette = args.len() == 4 && args[3] == "--palette";
